@@ -65,6 +65,24 @@ for case in battery['cases']:
         except Exception as ex:
             b = 'EXC ' + type(ex).__name__
         vals.append([a, b])
+        # the limit travels through Beautiful Soup's CSS proxy positionally
+        for lim in (1, 2):
+            try:
+                a2 = [str(e)[:60] for e in soup.select(s, namespaces=ns, limit=lim)]
+                a3 = [str(e)[:60] for e in soup.css.iselect(s, namespaces=ns, limit=lim)]
+                one = soup.select_one(s, namespaces=ns)
+                a4 = None if one is None else str(one)[:60]
+            except Exception as ex:
+                a2 = a3 = a4 = 'EXC ' + type(ex).__name__
+            try:
+                b2 = [str(e)[:60] for e in soupsieve.select(s, soup, namespaces=ns, limit=lim)]
+                one = soupsieve.select_one(s, soup, namespaces=ns)
+                b4 = None if one is None else str(one)[:60]
+            except Exception as ex:
+                b2 = b4 = 'EXC ' + type(ex).__name__
+            full = a if isinstance(a, list) else None
+            ok = (a2 == b2 == a3) and a4 == b4 and (full is None or (a2 == full[:lim] and a4 == (full[0] if full else None)))
+            vals.append([[a2, a3, a4] if ok else ['LIMIT-MISMATCH', a2, a3, a4], [b2, b2, b4] if ok else ['LIMIT-MISMATCH', b2, b4, full]])
 res['results'] = vals
 res['bs4_css_soupsieve'] = bs4.css.soupsieve is soupsieve
 print(json.dumps(res))
@@ -122,7 +140,7 @@ def run(tier, seed):
             ref = (p, res['results'])
         elif res['results'] != ref[1]:
             i = next(i for i, (x, y) in enumerate(zip(res['results'], ref[1])) if x != y)
-            flat = [(c_[0], c_[1], s) for c_ in BATTERY for s in c_[2]]
+            flat = [(c_[0], c_[1], s + sfx) for c_ in BATTERY for s in c_[2] for sfx in ('', ' (limit=1)', ' (limit=2)')]
             ck.violation(f'results depend on the import order: "{label}" vs "{"; ".join(ref[0])}" differ on {flat[i][2]!r}',
                          {'program': p, 'reference_program': ref[0], 'selector': flat[i][2], 'markup': flat[i][0], 'parser': flat[i][1],
                           'this': res['results'][i], 'reference': ref[1][i]})
